@@ -63,6 +63,9 @@ Definition ebuild_is (b : ebuild) (tag : N) (vt : vtype) (m : option (list (str 
   | BNullable _ vs, 5 | BPlain _ vs, 5 => negb literal && match values_from_list vs with None => true | Some _ => false end   (* ValueError *)
   | _, _ => false
   end.
+Definition ostr_eqb (a b : option str) : bool :=
+  match a, b with Some x, Some y => str_eqb x y | None, None => true | _, _ => false end.
+Definition text_of vt vs (k : str) : option str := match cls_of vt vs with Some c => enum_text c k | None => None end.
 Definition bool_opt_eqb (a b : option bool) : bool :=
   match a, b with Some x, Some y => Bool.eqb x y | None, None => true | _, _ => false end.
 """
@@ -439,6 +442,13 @@ def stage_gen(run, tier, lists):
                     add(f"ocls_eqb (cls_of {vt} {vs}) (Some {clist(['(%s, %s)' % (cstr(k), vals.cjval(v)) for k, v in mem], '(str * jval)')})",
                         {"c": c, "what": "enum members", "impl": mem, "term": f"cls_of {vt} {vs}"})
                     members_vals = [dec_value(v) for k, v in es[0]["members"] if k in es[0]["canonical"]]
+                    # what a member stringifies to (header / path parameters send str(member) / format(member)): the text of its value
+                    byname = {k: dec_value(v) for k, v in es[0]["members"]}
+                    for nm_, s_, f_, fs_, fm_ in es[0].get("texts", []):
+                        want = byname[nm_] if isinstance(byname[nm_], str) else str(byname[nm_])
+                        add(f"ostr_eqb (text_of {vt} {vs} {cstr(nmap.get(nm_, nm_))}) (Some {cstr(s_)})", {"c": c, "what": "str(member)", "probe": nm_, "impl": s_, "term": f"text_of {vt} {vs} {cstr(nmap.get(nm_, nm_))}"})
+                        if not (s_ == f_ == fs_ == fm_ == want):
+                            fails.append((c, "text", f"member {nm_} with value {byname[nm_]!r}: str() = {s_!r}, format() = {f_!r}, f-string = {fs_!r}; the declared value text is {want!r}"))
                 # oracle P1: member values == declared values
                 decl = c["nn"]
                 if not (all(any(same(v, w) for w in members_vals) for v in decl) and all(any(same(v, w) for w in decl) for v in members_vals)):
@@ -777,6 +787,110 @@ def stage_twins(run, tier):
     return len(terms), len(bad)
 
 
+# ------------------------------------------------------------------ what is SENT for a member in every parameter location
+SENT_LISTS = [["cat", "dog fish", "A-b"], ["a", "B"], ["x_y", "x y2", "Z.z"], ["v1", "2nd", "ok"], [1, -2, 0], [10, 7], [3]]
+
+
+def _sendable(l):
+    import string
+    ok = set(string.ascii_letters + string.digits + " _-.")
+    return all(isinstance(v, int) or (v and set(v) <= ok and v not in (".", "..") and v == v.strip()) for v in l)
+
+
+def stage_sent(run, tier, lists):
+    from openapi_python_client.utils import PythonIdentifier
+    import keyword
+    cfg0 = vals.ref_schemas({})[0]
+    epname = lambda n: str(PythonIdentifier(n, cfg0.field_prefix))
+    pool = list(SENT_LISTS)
+    extra = 4 if tier == "quick" else 120
+    for l in lists:
+        if extra <= 0:
+            break
+        tl = homogeneous(l)
+        if tl is None or None in l or not _sendable(l) or len(set(map(repr, l))) != len(l):
+            continue
+        if tl is str:
+            keys = _real_keys(l)
+            if keys is None or len(keys) != len(l) or any(not k.isidentifier() or keyword.iskeyword(k) for k in keys):
+                continue
+        pool.append(l)
+        extra -= 1
+    cases = []
+    for l in pool:
+        for site in ("component", "inline"):
+            for loc in ("path", "query", "header", "cookie"):
+                cases.append({"values": l, "site": site, "loc": loc})
+    for j, c in enumerate(cases):
+        c["j"] = j
+    fails = []
+    for literal in (False, True):
+        comps, paths = {}, {}
+        for c in cases:
+            j = c["j"]
+            sch = {"enum": list(c["values"])}
+            if c["site"] == "component":
+                comps[f"Snt{j}Kind"] = sch
+                sch = {"$ref": f"#/components/schemas/Snt{j}Kind"}
+            path = f"/s{j}/{{p}}" if c["loc"] == "path" else f"/s{j}"
+            paths[path] = {"get": {"operationId": f"snt{j}", "parameters": [{"name": "p", "in": c["loc"], "required": True, "schema": sch}], "responses": {"200": {"description": "ok"}}}}
+        with impl.Gen(impl.base_doc(components={"schemas": comps}, paths=paths), cfg={"literal_enums": literal}) as g:
+            files = g.files() if g.out.exists() else {}
+            if g.exc is not None or not files:
+                run.violation("oracle", {"note": "document with enum parameters makes the generator raise", "exc": repr(g.exc)})
+                continue
+            jobs = [{"what": "call", "module": f"api.default.{epname('snt%d' % c['j'])}", "param": "p"} for c in cases]
+            inp = json.dumps({"pkg_parent": str(g.out.parent), "pkg": g.out.name, "jobs": jobs})
+            env = {k: v for k, v in os.environ.items() if k != "PYTHONPATH"}
+            env["PYTHONHASHSEED"] = "0"
+            r = subprocess.run([PY, "-I", "-W", "ignore", str(Path(__file__).resolve().parents[1] / "lib" / "gen_runner.py")], input=inp, capture_output=True, text=True, timeout=900, env=env)
+            try:
+                res = json.loads(r.stdout.split("\n@@RESULT@@\n", 1)[1])
+            except Exception:
+                res = None
+            if not isinstance(res, list):
+                run.violation("oracle", {"note": "runner failed on the enum-parameter client", "detail": (r.stderr or r.stdout)[-400:]})
+                continue
+            for c, R in zip(cases, res):
+                tag = {"input": c["values"], "site": c["site"], "location": c["loc"], "literal_enums": literal}
+                if f"api/default/{epname('snt%d' % c['j'])}.py" not in files or "import_error" in R or "runner_error" in R:
+                    fails.append((tag, None, f"endpoint with the enum parameter was not generated / does not import: {R.get('import_error') or R.get('runner_error') or g.diag()[:2]}"))
+                    continue
+                for v in c["values"]:
+                    text = v if isinstance(v, str) else str(v)
+                    run.note_case({**tag, "value": repr(v)}, nontrivial=True, kind=f"sent:{c['loc']}:{'int' if isinstance(v, int) else 'str'}")
+                    rec = next((x for x in R.get("calls", []) if same(dec_value(x["value"]), v)), None)
+                    if rec is None:
+                        fails.append((tag, None, f"no member / Literal alternative for the listed value {v!r}"))
+                        continue
+                    if not (rec["str"] == rec["format"] == rec["fstr"] == text):
+                        fails.append((tag, None, f"member {rec['name']} of value {v!r}: str() = {rec['str']!r}, format() = {rec['format']!r}, f-string = {rec['fstr']!r}; declared text {text!r}"))
+                    if "error" in rec:
+                        fid = "cookie_non_string" if (c["loc"] == "cookie" and isinstance(v, int) and rec["error"].startswith("TypeError")) else None
+                        fails.append((tag, fid, f"calling the endpoint with the member of {v!r} raises {rec['error']}"))
+                        continue
+                    sent = rec["sent"]
+                    if c["loc"] == "path":
+                        got, want = sent["path"], f"/s{c['j']}/{text}"
+                    elif c["loc"] == "query":
+                        got, want = [q[1] for q in sent["query"] if q[0] == "p"], [text]
+                    elif c["loc"] == "header":
+                        got, want = sent["headers"].get("p"), text
+                    else:
+                        got, want = sent["headers"].get("cookie"), f"p={text}"
+                    if got != want:
+                        fails.append((tag, None, f"value {v!r} is sent in the {c['loc']} as {got!r}, the document's value text is {want!r}"))
+    seen = set()
+    for tag, fid, detail in fails:
+        k = json.dumps([tag, detail[:60]], default=str)
+        if k in seen:
+            continue
+        seen.add(k)
+        if fid is None or not run.known_finding(fid, f"{tag['input']!r} as {tag['location']} parameter ({tag['site']}, literal_enums={tag['literal_enums']}): {detail}"[:400]):
+            run.violation("oracle", {**tag, "detail": detail[:400], "note": "what is sent for an enum member (request captured behind httpx.MockTransport) must be the declared value's text in every parameter location"})
+    return len(cases)
+
+
 def run(run, tier, replay=None):
     lists = gen_lists(run.rng, tier)
     if replay:
@@ -790,10 +904,11 @@ def run(run, tier, replay=None):
     n1, b1 = stage_b_parser(run, tier, lists)
     n2, b2 = stage_gen(run, tier, lists)
     n3, b3 = stage_twins(run, tier)
+    run.extra["sent_cases"] = stage_sent(run, tier, lists)
     n2, b2 = n2 + n3, b2 + b3
     run.corr = {"cases": n1 + n2, "mismatches": b1 + b2,
                 "what": "EnumProperty.values_from_list == Values.values_from_list; Enum/LiteralEnumProperty.build == Enums.enum_build; generated Enum members / *_VALUES set / "
-                        "from_dict decode of every probe / const check == Enums.str_enum_class,int_enum_class,literal_values,enum_decode,nullable_*_decode,const_accepts (vm_compute); "
+                        "from_dict decode of every probe / const check / str(member) == Enums.str_enum_class,int_enum_class,literal_values,enum_decode,nullable_*_decode,const_accepts,enum_text (vm_compute); "
                         "two enums deriving one class name (inline/inline, inline/component, property/parameter): reported declarations and the shared class table == Scopes.model_decls"}
     run.assumptions += ["CPython's enum.Enum value lookup, set membership and == are represented by Enums.enum_lookup / literal_check / py_eq (validated by the correspondence only)",
                         "g_repr_printable restricts the model's string-literal lexer (no \\x/\\u escapes); literal enums over other strings are covered by the correspondence only"]
